@@ -29,6 +29,7 @@ CONSTANTS
   IOModes,     \* modes offered to the virtual INPUT / OUTPUT operators
   Share,       \* "none" | "tensor" | "buffer": constants may be shared between ops
   Dup,         \* "no" | "only" | "both": a subgraph may list one tensor twice among its outputs (return y, y)
+  PassThru,    \* BOOLEAN: a graph input may also be listed among the outputs (return x, f(x))
   SigOrder,    \* "same" | "rev" | "both": a signature lists its inputs / outputs in the order of the subgraph's lists or reversed
                \*   (the converter sorts signature entries by name, so any order is legal)
   Layout,      \* "alloc" | "actsfirst" | "both": order of the tensor table - as allocated by the build phase (constants
@@ -245,7 +246,7 @@ Sinks(s) == {t \in Produced(s) : ConsumersOf(s, t) = {}}
 InputsUsed(s) == \A k \in 1..Len(G[s].gins) : ConsumersOf(s, G[s].gins[k]) # {}
 
 RECURSIVE OutChoices(_)
-OutSets(s) == {S \in SUBSET Produced(s) : Sinks(s) \subseteq S /\ S # {}}
+OutSets(s) == {S \in SUBSET (Produced(s) \cup (IF PassThru THEN SeqRange(G[s].gins) ELSE {})) : Sinks(s) \subseteq S /\ S \cap Produced(s) # {}}
 \* output lists of subgraph s: ascending, optionally with one output listed a second time at the end
 OutLists(s) == (IF Dup = "only" THEN {} ELSE {AscSeq(S) : S \in OutSets(s)})
                \cup (IF Dup = "no" THEN {} ELSE UNION {{Append(AscSeq(S), x) : x \in S} : S \in OutSets(s)})
